@@ -293,6 +293,17 @@ class SymFloat(core.SymFloatBase):
                 t = 0.5 * 10.0 ** (-n) * (1 + 1e-9)
                 r.iv = (self.iv[0] - t if self.iv[0] < 0 else max(0.0, self.iv[0] - t), self.iv[1] + t if self.iv[1] > 0 else min(0.0, self.iv[1] + t))
             return r
+        if MODE.get("round_ndigits") == "uf" and isinstance(n, core.SymInt):
+            MODE["relaxed_used"] = True
+            if mk_bool(z3.Or(z3.fpIsNaN(self.z), z3.fpIsInf(self.z))):
+                return self
+            return mkf(z3.Function("round_dec_sym", F64, z3.BitVecSort(core.W), F64)(self.z, n.z))
+        if MODE.get("round_ndigits") == "uf" and isinstance(n, int) and 0 <= n <= 15:
+            # uninterpreted function per ndigits: arbitrary but functional (equal arguments give equal results), so two runs
+            # of the same decoder on the same payload agree term by term.  Over-approximation: counterexamples are abstract.
+            MODE["relaxed_used"] = True
+            f = z3.Function(f"round_dec_{n}", F64, F64)
+            return mkf(f(self.z))
         raise Unsupported("round(float, ndigits): correctly-rounded decimal rounding is not modelled")
 
     def __format__(self, spec):
@@ -379,6 +390,12 @@ def math_log10(x):
         return _math.inf
     if MODE["mode"] == "havoc":
         return havoc_float_finite()
+    if MODE.get("round_ndigits") == "uf":
+        MODE["relaxed_used"] = True
+        r = z3.Function("log10_uf", F64, F64)(x.z)
+        ctx().solver.add(z3.Not(z3.fpIsNaN(r)), z3.Not(z3.fpIsInf(r)))
+        ctx().model = None
+        return SymFloat(r, None)
     raise Unsupported("math.log10 of a symbolic float")
 
 
@@ -398,4 +415,10 @@ def math_ceil(x):
         raise OverflowError("cannot convert float infinity to integer")
     if MODE["mode"] == "havoc":
         return ctx().fresh_int(f"havoc_c{len(ctx().ph) + ctx().nvars}", -400, 400)   # ceil(log10(|finite double|)) lies in [-324, 309]
+    if MODE.get("round_ndigits") == "uf":
+        MODE["relaxed_used"] = True
+        r = z3.Function("ceil_uf", F64, z3.BitVecSort(core.W))(x.z)
+        ctx().solver.add(r >= -400, r <= 400)
+        ctx().model = None
+        return mk_int(r, -400, 400)
     raise Unsupported("math.ceil of a symbolic float")
